@@ -53,6 +53,7 @@ structure OneLaws (F : Type) [Arith F] : Prop where
 /-- trees without `BoostQuery` nodes -/
 inductive BoostFree {F : Type} : QTree F → Prop
   | term (n id tf) : BoostFree (.term n id tf)
+  | phrase (ns id c) : BoostFree (.phrase ns id c)
   | const (q c) : BoostFree (.const q c)
   | sum (qs) : BoostFree (.sum qs)
   | dismax (qs tie) : BoostFree (.dismax qs tie)
@@ -63,6 +64,7 @@ theorem C12_explain_value {F : Type} [Arith F] (hF : OneLaws F) (s : Stats) (q :
     (hq : BoostFree q) : explainValue s q = score s q one := by
   cases hq with
   | term n id tf => simp [explainValue, score]
+  | phrase ns id c => simp [explainValue, score]
   | const q c => simp [explainValue, score, hF.one_mul]
   | sum qs => simp [explainValue]
   | dismax qs tie => simp [explainValue]
@@ -110,6 +112,7 @@ theorem C12_collector_independent_partial {F : Type} [Arith F] (s : Stats) (q : 
   cases q with
   | dismax qs tie => simp only [NoTermDisMax] at hq; simp [topDocsScore, hq]
   | term _ _ _ => rfl
+  | phrase _ _ _ => rfl
   | boost _ _ => rfl
   | const _ _ => rfl
   | sum _ => rfl
